@@ -137,3 +137,50 @@ Section WS.
       end.
   Qed.
 End WS.
+
+Section ReadTail.
+  Variable P : prims.
+
+  Definition with_input (c : connIn) (inp : option (list N)) : connIn :=
+    mkIn (i_hc c) (i_vers c) (i_raw c) inp (i_warnCount c) (i_alerts c) (i_trace c).
+
+  (* Read with a buffer smaller than what is left of the current record: exactly the first L bytes are
+     handed out, the rest stays in c.input, nothing else happens - in particular the look-ahead for a waiting
+     alert does not run while unread data is pending (its guard c.input == nil) *)
+  Lemma read_keeps_unread_tail fuel c d L :
+    i_input c = Some d -> hc_err (i_hc c) = false -> 1 <= L -> L < length d ->
+    conn_Read P fuel c L = Ok (with_input c (Some (skipn L d)), firstn L d, false).
+  Proof.
+    intros Hi He HL Hd. unfold conn_Read. destruct (Nat.eqb_spec L 0) as [|_]; [lia|].
+    cbn [conn_Read_loop]. rewrite Hi. cbn [obind]. rewrite He, Hi.
+    destruct (firstn L d) as [|x xs] eqn:Ef.
+    { apply (f_equal (@length N)) in Ef. rewrite firstn_length in Ef. cbn in Ef. lia. }
+    destruct (skipn L d) as [|y ys] eqn:Es.
+    { apply (f_equal (@length N)) in Es. rewrite skipn_length in Es. cbn in Es. lia. }
+    cbn [i_input]. reflexivity.
+  Qed.
+
+  (* Read with a buffer that holds the rest of the current record: all of it is handed out; only then may
+     the look-ahead consume a waiting alert record *)
+  Lemma read_hands_out_rest fuel c d L c' out err :
+    i_input c = Some d -> hc_err (i_hc c) = false -> d <> [] -> length d <= L ->
+    conn_Read P fuel c L = Ok (c', out, err) ->
+    out = d /\ (c' = with_input c None \/ readRecord P fuel (with_input c None) = Ok c').
+  Proof.
+    intros Hi He Hne Hd. unfold conn_Read.
+    destruct (Nat.eqb_spec L 0) as [->|_]; [destruct d; [congruence|cbn in Hd; lia]|].
+    cbn [conn_Read_loop]. rewrite Hi. cbn [obind]. rewrite He, Hi.
+    rewrite firstn_all2, skipn_all2 by exact Hd.
+    destruct d as [|x xs]; [congruence|].
+    cbn [i_input i_raw]. intros H.
+    destruct (i_raw c) as [|t rr] eqn:Er0.
+    - injection H as <- <- _. split; [reflexivity|]. left. unfold with_input. rewrite Er0. reflexivity.
+    - destruct (t =? recordTypeAlert)%N.
+      + assert (Ew : mkIn (i_hc c) (i_vers c) (t :: rr) None (i_warnCount c) (i_alerts c) (i_trace c) = with_input c None)
+          by (unfold with_input; rewrite Er0; reflexivity).
+        rewrite Ew in H.
+        destruct (readRecord P fuel (with_input c None)) as [c3| | |] eqn:Er; cbn [obind] in H; try discriminate.
+        injection H as <- <- _. auto.
+      + injection H as <- <- _. split; [reflexivity|]. left. unfold with_input. rewrite Er0. reflexivity.
+  Qed.
+End ReadTail.
